@@ -518,6 +518,7 @@ func cmdCheck(args []string) int {
 	}
 	_ = results
 	_ = mu
+	entryPre := map[string]bool{}
 	for _, u := range units {
 		var ui unitInfo
 		for pi, pass := range passes {
@@ -533,6 +534,17 @@ func cmdCheck(args []string) int {
 			res := VerifyUnit(prog, cs, u)
 			for ei, e := range res.Errors {
 				unbound = append(unbound, unboundT{fmt.Sprintf("%s/%s/bind:%d", prop, u.ID(), ei+1), e})
+			}
+			if !u.Lemma && !u.Trusted {
+				for _, r := range u.Requires {
+					if on(r.Tags) {
+						kind := "function"
+						if u.Region != "" {
+							kind = "region"
+						}
+						entryPre[fmt.Sprintf("entry precondition of %s %s, assumed at its entry (holds for a caller only where a call-pre obligation of a verified caller establishes it): %s: %s", kind, u.ID(), r.Name, r.Text)] = true
+					}
+				}
 			}
 			n := 0
 			for _, ob := range res.Obligations {
@@ -705,6 +717,12 @@ func cmdCheck(args []string) int {
 	}
 	sort.Strings(tr)
 	ass = append(ass, tr...)
+	var ep []string
+	for a := range entryPre {
+		ep = append(ep, a)
+	}
+	sort.Strings(ep)
+	ass = append(ass, ep...)
 	var ab []string
 	for a := range abstractedAll {
 		ab = append(ab, "abstracted: "+a)
@@ -841,6 +859,15 @@ func loadExpected() map[string][]string {
 
 func cmdExpect(args []string) int {
 	update := len(args) > 0 && args[0] == "--update"
+	if update && os.Getenv("HVC_EXPECT_PASS") == "" {
+		// two passes: the first records the loop/token baselines of the current source, the second names the obligations
+		// against those baselines (a new loop would otherwise get a provisional ordinal in the recorded names)
+		if self, err := os.Executable(); err == nil {
+			c := exec.Command(self, "expect", "--update")
+			c.Env = append(os.Environ(), "HVC_EXPECT_PASS=1")
+			c.Run()
+		}
+	}
 	prog, cs, err := loadAll(nil)
 	if err != nil {
 		fmt.Fprintln(os.Stderr, err)
